@@ -129,7 +129,7 @@ let print_state () =
   let ids = wd.w_h.k_ids in
   List.iter (fun e ->
     let cells = List.map (fun k -> match op_get e (ni k) wd with
-      | Inr (Some v) -> scval v | Inr None -> "-" | Inl f -> "!" ^ sfail f) [0; 1; 2; 3; 4; 5] in
+      | Inr (Some v) -> scval v | Inr None -> "-" | Inl f -> "!" ^ sfail f) [0; 1; 2; 3; 4; 5; 6; 7; 8; 9] in
     Printf.printf "M %s %s\n" (skey e) (String.concat " " cells)) ids;
   let bits l f = String.concat "" (List.map (fun k -> if f k then "1" else "0") l) in
   Printf.printf "E len=%d alive=%s\n" (inn wd.w_ents.sm_len) (bits ids (fun k -> sm_get k wd.w_ents <> None));
